@@ -109,6 +109,14 @@ Example C20_field_parameter_nonvacuous :
 Proof. reflexivity. Qed.
 Print Assumptions C20_field_parameter_nonvacuous.
 
+(* The traversal of the struct type is modelled with fuel; the fuel struct_plan gives it is enough:
+   any larger amount yields the same plan (or the same refusal), for all tags and post-actions. *)
+Theorem C20_struct_plan_fuel_suffices : forall acts ptr tid fields k,
+  map_fields (2 * fsize (FStruct tid fields) + 2 + k) acts ptr fields 0 [] (mkFplan [] [])
+  = struct_plan acts ptr (FStruct tid fields).
+Proof. exact struct_plan_fuel. Qed.
+Print Assumptions C20_struct_plan_fuel_suffices.
+
 Example C20_nonvacuous :
   (* func(a T0, b T1, c T0, d T2) curried to func(c' T0, a' T0) : T1 and T2 injected *)
   match curry_plan (fun _ => false) [0; 1; 0; 2] [0; 0] with
